@@ -18,29 +18,23 @@ C11_REASON = (
     "within reach of the solver-based technique (DESIGN.md section 4)"
 )
 
-CHECKS = {
-    "C14": dict(
-        text=LEVEL_TEXT + "For C14: Cells.add_cell/remove_cell/get_near_cells/assign_cells for ALL real coordinates "
-        "(unbounded), cell sizes 2 and 5 (1..10 thorough), against a Euclidean brute-force oracle, over every add/remove/"
-        "move/readd sequence up to the stated length.",
-        note="Trusted: z3, the symx int()-truncation and association-list dict models (validated against CPython each run). "
-        "Coordinates are exact reals (add_cell only compares with 0 and truncates, exact on doubles). Histories bounded "
-        "(quick: 2 atoms x 1 op; thorough: 2 atoms x 2 ops, 3 atoms x 1 op). The hydrogens/* call sites of the remove/add "
-        "protocol are outside the claim.",
-        technique="symbolic execution of real code on z3 Real/Int proxies (symx) + SMT verdict per path",
-        design="DESIGN.md section 3 C14",
-    ),
-}
 
-CHECKS["C13"] = dict(
-    text=LEVEL_TEXT + "For C13: Biomolecule.update_ss_bridges + apply_patch + add_hydrogens (HG suppression) + CYS.set_state on 2..4 (thorough 5) "
-    "real CYS residues in four chain layouts and several file orders, with the SG-SG distances an arbitrary symbolic metric, so every "
-    "placement around the 2.5 A limit (including the boundary) is covered.",
-    note="Trusted: z3, symx proxies. util.distance is stubbed for SG-SG pairs (returns the symbolic metric); everything else is the real code on "
-    "structures generated from AA.xml templates. Non-isolated configurations are unconstrained by the property. N <= 5 cysteines.",
-    technique="symbolic execution of real code on z3 Real proxies (symx) + SMT verdict per path",
-    design="DESIGN.md section 3 C13",
-)
+
+def load_checks():
+    """Read the MANIFEST = dict(...) literal of every checks/cXX.py (no import)."""
+    import ast
+    import glob
+
+    out = {}
+    for path in sorted(glob.glob(os.path.join(HERE, "checks", "c[0-9][0-9].py"))):
+        tree = ast.parse(open(path).read())
+        for node in tree.body:
+            if isinstance(node, ast.Assign) and getattr(node.targets[0], "id", "") == "MANIFEST":
+                kw = {k.arg: ast.literal_eval(k.value) for k in node.value.keywords}
+                kw["text"] = LEVEL_TEXT + kw["text"]
+                out[os.path.basename(path)[:3].upper()] = kw
+    return out
+
 
 ALL = [f"C{i:02d}" for i in range(1, 19)]
 
@@ -50,8 +44,7 @@ def main():
     p = os.path.join(HERE, "tools", "manifest_checks.json")
     if os.path.exists(p):
         extra = json.load(open(p))
-    checks = dict(CHECKS)
-    checks.update(extra.get("checks", {}))
+    checks = load_checks()
     na = extra.get("not_applicable", {})
     m = {
         "version": 1,
